@@ -67,6 +67,12 @@ def run_checks(dest, props, tier):
                         "with_failing_input": any(l.startswith("VIOLATION") and "no-failing-input-found" not in l for l in lines)})
     finally:
         sh("git -C /repo checkout -- .")
+    # back on the clean tree: the check must be green again (this also restores regenerated Lean files and evidence)
+    for p in props:
+        rcc, oc = sh(f"./check {p} --tier quick", cwd=VERIF, timeout=7200)
+        for r in res:
+            if r["cmd"].split()[1] == p:
+                r["clean_tree_rc_after_revert"] = rcc
     # replay on the clean tree must NOT reproduce
     for r in res:
         if r["replay"] and os.path.exists(os.path.join(VERIF, r["replay"])):
@@ -84,6 +90,7 @@ def main():
     ap.add_argument("--tier", default="quick")
     ap.add_argument("--also", nargs="*", default=[])
     ap.add_argument("--skip-suite", action="store_true")
+    ap.add_argument("--confirm-only", action="store_true", help="phase A only: confirm in a scratch worktree, store; do not touch /repo")
     a = ap.parse_args()
     dest = os.path.join(VERIF, "seeded", a.seed_id)
     mp = os.path.join(dest, "meta.json")
@@ -124,7 +131,7 @@ def main():
         finally:
             sh(f"git -C /repo worktree remove --force {wt}")
             shutil.rmtree(wt, ignore_errors=True)
-    if meta.get("confirmed") and meta.get("tests_same", True):
+    if meta.get("confirmed") and meta.get("tests_same", True) and not a.confirm_only:
         meta["checks"] = run_checks(dest, [a.prop] + a.also, a.tier)
         meta["caught"] = any(c["caught"] for c in meta["checks"])
         meta["with_failing_input"] = any(c["with_failing_input"] for c in meta["checks"])
